@@ -223,6 +223,28 @@ fn in_memory(ctx: &Ctx, thorough: bool) {
     for l in [4096usize, 65537, 70001] {
         in_memory_cfg(ctx, &[l], &seqs, &[0, 1, l as u64 - 4096, l as u64 - 1, l as u64, l as u64 + 1], true);
     }
+    // transfers around 2^20 and 2^21 bytes (thorough: 2^24) in one call: no adapter caps a copy
+    const M: usize = 1 << 20;
+    let mut huge = vec![M - 1, M, M + 1, 2 * M + 3];
+    if thorough {
+        huge.extend([16 * M - 1, 16 * M + 1]);
+    }
+    let mut seqs: Vec<Vec<Call>> = Vec::new();
+    for &a in &huge {
+        for ea in [false, true] {
+            seqs.push(vec![Call { len: a, exact: ea, mis: 1 }]);
+            if ea && a != M {
+                seqs.push(vec![Call { len: a, exact: ea, mis: 0 }, Call { len: 5, exact: !ea, mis: 2 }]);
+            }
+        }
+    }
+    let mut lens = vec![M + 1, 2 * M + 7];
+    if thorough {
+        lens.push(16 * M + 5);
+    }
+    for l in lens {
+        in_memory_cfg(ctx, &[l], &seqs, &[0, 3, l as u64 - M as u64 - 1], false);
+    }
 }
 
 fn in_memory_cfg(ctx: &Ctx, lens: &[usize], seqs: &[Vec<Call>], positions: &[u64], thorough: bool) {
